@@ -16,8 +16,8 @@ suite /var/tmp/suite_without_$id.txt
 same=$(diff -q /var/tmp/suite_with_$id.txt /var/tmp/suite_without_$id.txt >/dev/null && echo identical || echo DIFFERENT)
 ok=$(grep -c " ok$" /var/tmp/suite_with_$id.txt); failed=$(grep -c " FAILED$" /var/tmp/suite_with_$id.txt)
 mv /var/tmp/seeded_demo_$id.rs tests/seeded_demo.rs
-demo_without=$(cargo test --offline $feat --test seeded_demo 2>&1 | grep "^test result" | head -1)
+demo_without=$(cargo test --offline $feat --test seeded_demo 2>&1 | grep "^test result:" | head -1)
 git apply patch.diff
-demo_with=$(cargo test --offline $feat --test seeded_demo 2>&1 | grep "^test result" | head -1)
+demo_with=$(cargo test --offline $feat --test seeded_demo 2>&1 | grep "^test result:" | head -1)
 cp patch.diff "$out/patch.diff"; cp tests/seeded_demo.rs "$out/seeded_demo.rs"; [ -f REPORT.md ] && cp REPORT.md "$out/REPORT.md"
 echo "id=$id suite_with_vs_without=$same ok=$ok failed=$failed | demo with change: $demo_with | demo without: $demo_without" | tee "$out/verified.txt"
